@@ -304,7 +304,10 @@ def build(P):
 
     # ------------------------------------------------------------------ C11
     RT_FAULTS = {"undefined": ["OUTPUT undefined_name_zz"], "type": ["zz_i <- 1", "zz_i <- \"s\""], "oob": ["DECLARE zz_a : ARRAY[1:2] OF INTEGER", "zz_a[3] <- 1"],
-                 "divzero": ["OUTPUT 1 DIV 0"], "notopen": ["WRITEFILE \"nofile.txt\", 1"]}
+                 "divzero": ["OUTPUT 1 DIV 0"], "notopen": ["WRITEFILE \"nofile.txt\", 1"],
+                 # errors raised INSIDE a built-in: the innermost frame is the built-in (no source position), then the line that called it, then the call sites
+                 "builtin-mid": ["OUTPUT MID(\"abc\", 10, 1)"], "builtin-nested": ["zz_q <- 1 + LENGTH(LEFT(\"abc\", 9))"], "builtin-right": ["OUTPUT RIGHT(\"abc\", - 1)"], "builtin-date": ["zz_d <- SETDATE(31, 2, 2020)"]}
+    RT_BUILTIN = {"builtin-mid": "MID", "builtin-nested": "LEFT", "builtin-right": "RIGHT", "builtin-date": "SETDATE"}
 
     def c11_cases(tier, seed):
         shapes = [("x.\nOUTPUT 1", 1), ("OUTPUT \"a\"\nx <- (1 +\nOUTPUT 2", 2), ("OUTPUT 1\nIF TRUE THEN\nOUTPUT 2", None), ("OUTPUT 1\nOUTPUT \"unterminated", None), ("OUTPUT 1\nx <- 1 == 2", 2),
@@ -379,6 +382,7 @@ def build(P):
                         for d in range(depth - 1, 0, -1): chain.append((names[d - 1], call_lines[d]))
                         chain.append(("Program", call_lines[0]))
                     L.append("OUTPUT \"not reached\"")
+                    if fk in RT_BUILTIN: chain = [(RT_BUILTIN[fk], 0)] + chain
                     cases.append(Case(id="C11-rt-%d-%s-%d" % (i, fk, depth), prog=("\n".join(L) + "\n").encode(), meta=dict(kind="runtime", chain=chain)))
         # call sites whose argument binding itself makes calls; an error inside a function called from an index expression (two former defects)
         extra = [('DECLARE A : ARRAY[1:3] OF INTEGER\nFUNCTION F(n : INTEGER) RETURNS INTEGER\n    RETURN n\nENDFUNCTION\nPROCEDURE P(BYREF p : INTEGER)\n    OUTPUT 1 DIV 0\nENDPROCEDURE\nA[1] <- 0\nCALL P(A[F(1)])\n', [("P", 6), ("Program", 9)]), ('TYPE E = (A, B)\nDECLARE A : ARRAY[1:3] OF INTEGER\nFUNCTION F(n : INTEGER) RETURNS INTEGER\n    OUTPUT zzz\n    RETURN n\nENDFUNCTION\nOUTPUT A[F(1)]\nOUTPUT "after"\n', [("F", 4), ("Program", 7)]),
@@ -428,15 +432,20 @@ def build(P):
                         "OPENFILE \"nodir_zz/x.txt\" FOR WRITE", "OPENFILE \"nodir_zz/x.dat\" FOR RANDOM", "OPENFILE \"nodir_zz/x.txt\" FOR APPEND", "OPENFILE \"nodir_zz/x.txt\" FOR READ"],
                # records that stop decoding half-way (written when the type had another layout / damaged files): the failing GETRECORD must leave the variable as it was
                "record": ["GETRECORD \"keeprec.dat\", keep_r", "GETRECORD \"keeparr.dat\", keep_a", "GETRECORD \"keeprec.dat\", keep_i", "GETRECORD \"keepnest.dat\", keep_n", "GETRECORD \"keeparr.dat\", keep_r", "SEEK \"keeprec.dat\", 5"],
+               # failures INSIDE a routine called from the entry (function in a bare expression, in an assignment, in an OUTPUT; procedure; nested): the session state kept by the
+               # interpreter while a call is active (echo mode, call depth, call-site notes) must be back to normal for the next entry
+               "in-call": ["KeepShare(4, 0)", "keep_i <- KeepShare(4, 0)", "OUTPUT KeepShare(4, 0)", "CALL KeepFail", "KeepOuter(0)", "keep_a[KeepShare(1, 0)] <- 3", "KeepShare(KeepShare(1, 0), 1)"],
                "newvar": ["fresh_zz <- 1 DIV 0", "READFILE \"none.txt\", fresh_zq", "fresh_zr <- nope_zz"]}
     ESTABLISH = ["DECLARE keep_i : INTEGER", "keep_i <- 41", "DECLARE keep_s : STRING", "keep_s <- \"kept\"", "CONSTANT KEEP_C = 7", "DECLARE keep_a : ARRAY[1:2] OF INTEGER", "keep_a[1] <- 11",
                  "TYPE KeepE = (K1, K2)", "DECLARE keep_e : KeepE", "keep_e <- K2", "PROCEDURE KeepP\nOUTPUT \"proc ok\"\nENDPROCEDURE", "OPENFILE \"keep.txt\" FOR WRITE", "WRITEFILE \"keep.txt\", \"first\"",
+                 "FUNCTION KeepShare(a : INTEGER, b : INTEGER) RETURNS INTEGER\nRETURN a DIV b\nENDFUNCTION", "PROCEDURE KeepFail\nOUTPUT 1 DIV 0\nENDPROCEDURE",
+                 "FUNCTION KeepOuter(z : INTEGER) RETURNS INTEGER\nRETURN KeepShare(8, z) + 1\nENDFUNCTION",
                  "TYPE KeepR\nDECLARE a : INTEGER\nDECLARE b : STRING\nDECLARE c : ARRAY[1:2] OF INTEGER\nENDTYPE", "DECLARE keep_r : KeepR", "keep_r.a <- 5", "keep_r.b <- \"old\"", "keep_r.c[2] <- 6",
                  "TYPE KeepN\nDECLARE k : INTEGER\nDECLARE inner : KeepR\nENDTYPE", "DECLARE keep_n : KeepN", "keep_n.k <- 8", "keep_n.inner.a <- 9", "keep_a[2] <- 12",
                  "OPENFILE \"keeprec.dat\" FOR RANDOM", "OPENFILE \"keeparr.dat\" FOR RANDOM", "OPENFILE \"keepnest.dat\" FOR RANDOM"]
     KEEPFILES = {"keeprec.dat": ("f", b"COMPOSITE KeepR INTEGER 111 INTEGER 222 ARRAY 2 INTEGER 1 INTEGER 2\n"), "keeparr.dat": ("f", b"ARRAY 2 INTEGER 55 STRING 1 x\n"),
                  "keepnest.dat": ("f", b"COMPOSITE KeepN INTEGER 77 COMPOSITE KeepR INTEGER 99 STRING 3 new ARRAY 2 INTEGER 1 BOOLEAN TRUE\n")}
-    PROBE = ["keep_i", "keep_s", "KEEP_C", "keep_a[1]", "keep_e", "CALL KeepP", "WRITEFILE \"keep.txt\", \"second\"", "fresh_zz", "fresh_zq", "fresh_zr",
+    PROBE = ["keep_i", "keep_s", "KEEP_C", "keep_a[1]", "keep_e", "CALL KeepP", "KeepShare(9, 3)", "KeepOuter(2)", "keep_i + 1", "\"echo\" & keep_s", "WRITEFILE \"keep.txt\", \"second\"", "fresh_zz", "fresh_zq", "fresh_zr",
              "keep_a[2]", "keep_r.a", "keep_r.b", "keep_r.c[1]", "keep_r.c[2]", "keep_n.k", "keep_n.inner.a", "keep_n.inner.b", "keep_n.inner.c[1]",
              "CLOSEFILE \"nodir_zz/x.txt\"", "CLOSEFILE \"nodir_zz/x.dat\"", "CLOSEFILE \"keeprec.dat\"", "CLOSEFILE \"keeparr.dat\"", "CLOSEFILE \"keepnest.dat\""]
 
